@@ -121,7 +121,7 @@ def superposition4(S):
     _superposition_body(S, mk, 4)
 
 
-def _channels_body(S, as_dict, order, npix=(1, 2)):
+def _channels_body(S, as_dict, order, npix=(1, 2), pol_order=None):
     c01_setup(S)
     log = []
     theory = uf_theory(S, log)
@@ -137,9 +137,9 @@ def _channels_body(S, as_dict, order, npix=(1, 2)):
     keys = list(order)
     if as_dict:
         wl_in = {k: wl[k] for k in keys}
-        pol_in = {k: pol[k] for k in keys}
+        pol_in = {k: pol[k] for k in (pol_order or keys)}
         n_in = {k: nn[k] for k in keys}
-        r_in = {k: rr[k] for k in keys}
+        r_in = {k: rr[k] for k in (pol_order or keys)}
     else:
         wl_in = xr.DataArray(np.array([wl[k] for k in keys], dtype=object if S.sym else float),
                              dims='illumination', coords={'illumination': keys})
@@ -180,6 +180,14 @@ def channels_dict(S):
                                '(alignment must be by label)')
 def channels_dict_permuted(S):
     _channels_body(S, True, ('green', 'red'))
+
+
+@obligation('C06.channels.mixed_orders', functions=FUNCS, timeout_s=180, nvalid=2,
+            stubs=['raw_fields := uninterpreted kernel'],
+            bounds=CH_BOUNDS + '; wavelength/index dictionaries keyed (green, red) while polarization/radius '
+                               'dictionaries are keyed (red, green): every quantity must be aligned by label')
+def channels_mixed(S):
+    _channels_body(S, True, ('green', 'red'), pol_order=('red', 'green'))
 
 
 @obligation('C06.channels.labelled_arrays', functions=FUNCS, timeout_s=180, nvalid=2,
